@@ -10,6 +10,7 @@ import k2
 import k2m
 import k3
 import k2s
+import k5
 
 _CTX = {}
 
@@ -31,9 +32,10 @@ PROPS = {
         "exhaustive": True,
         "not_decided": "that every created id is greater than every id the directory has ever contained (arithmetic over histories)",
     },
+    "TEST6": {"rules": [k5.r1_bounded_recursion, k5.e1_no_dropped_result, k5.ghint_hint_validation, k5.p17_read_under_index_guard, k5.o1_recovery_order]},
     "TEST5": {"rules": [k2s.p10_accept_loop, k2s.p12_handler_loop, k2s.p11_command_application, k2s.p9_server_shutdown_handshake, k2s.p8_background_worker, k2s.p15_interval_loops]},
     "TEST4": {"rules": [k3.s1_roles, k3.s2_live_vs_recovery, k3.s3_displaced_accounting, k3.s5_trigger_threshold_roles, k3.s4_resp_tag_tables, k3.s9_command_table]},
     "TEST3": {"rules": [k2m.p4_merge_per_entry_order, k2m.p5_merge_outputs_before_unlink, k2m.s7_s8_merge_sets, k2m.t1_tombstone_conservation]},
     "TEST2": {"rules": [k2.p1_append_flushes, k2.p2_sync_always, k2.p3_publish_after_append, k2.p13_writer_identity_pair, k2.p14_rollover_test, k2.p6_reader_pool, k2.p7_closed_check]},
-    "TEST": {"rules": [k4.v1_log_iterator_eof, k4.v2_parse_frame, k4.v3_read_frame_eof, k4.v4_never_policy, k4.v5_hint_fallback, k1.w1_file_mutation_api, k1.w7_recovery_read_only, k1.w2_index_mutators, k1.w4_no_abort, k1.w5_permit_ops, k1.w6_merge_sync_entry]},
+    "TEST": {"rules": [k4.v6_write_frame_flushes, k4.kdec_decimal_buffer, k4.v1_log_iterator_eof, k4.v2_parse_frame, k4.v3_read_frame_eof, k4.v4_never_policy, k4.v5_hint_fallback, k1.w1_file_mutation_api, k1.w7_recovery_read_only, k1.w2_index_mutators, k1.w4_no_abort, k1.w5_permit_ops, k1.w6_merge_sync_entry]},
 }
